@@ -103,13 +103,44 @@ InScope(c) ==
     /\ (Tier = "quick" => /\ c.spoof \in {"absent", "lower", "repeated", "comma"}
                           /\ (c.endpoint = "upstream" /\ c.spoof \in {"lower", "comma"} => c.source \in {"cookie", "none_bypass", "basic"}))
 
+\* ---- structured header lists (injectRequestHeaders / injectResponseHeaders) -------------------
+\* One configured header "X-Vp-Ident", written by the operator in some letter case, with preserveRequestValue on / off and one
+\* or two claim values in one of the three claim-source forms.  Same requirement: client values only if preserved, then the
+\* values derived from the session (empty and unknown claims give nothing).
+Spellings == {"canonical", "upper", "lower", "mixed"}
+SKinds    == {"plain", "prefixed", "basic", "two"}            \* two: the claim and the e-mail as two values of the one header
+SClaims   == {"user", "email", "groups", "pu", "at", "unknown"}
+SSources  == {"cookie", "cookie_nogrp", "bearer", "basic", "none_bypass", "cookie_bypass"}
+NoFlags   == [pba |-> FALSE, pat |-> FALSE, puh |-> FALSE, paz |-> FALSE, sx |-> FALSE, sba |-> FALSE, saz |-> FALSE, pe |-> FALSE, strip |-> TRUE, pw |-> FALSE]
+SVals(s, src, claim) == IF claim = "unknown" THEN <<>> ELSE FieldVals(s, src, NoFlags, claim)
+STagKind(k) == IF k = "two" THEN "plain" ELSE k
+SDerived(d) ==
+    LET s == SessionOf(d.source)
+        v == SVals(s, d.source, d.claim) \o (IF d.kind = "two" THEN SVals(s, d.source, "email") ELSE <<>>)
+    IN [i \in 1..Len(v) |-> <<STagKind(d.kind), v[i]>>]
+SExpected(d) ==
+    (IF d.endpoint = "upstream" /\ d.preserve THEN ClientTags("X-Vp-Ident", d.source, d.spoof) ELSE <<>>) \o SDerived(d)
+SInScope(d) ==
+    /\ (d.endpoint = "authonly" => d.spoof \in {"absent", "canonical"} /\ ~d.preserve /\ d.source # "cookie_bypass")
+    /\ (d.source \in {"basic"} => d.claim \in {"user", "email", "groups", "unknown"})
+    /\ (Tier = "quick" => /\ d.spoof \in {"absent", "canonical", "lower", "repeated"}
+                          /\ d.source \in {"cookie", "cookie_nogrp", "basic", "none_bypass"}
+                          /\ d.claim \in {"user", "groups", "pu", "unknown"}
+                          /\ d.kind \in {"plain", "basic", "two"}
+                          /\ (d.spoof \in {"canonical", "repeated"} => d.source \in {"cookie", "none_bypass"}))
+SMk(ep, sp, pr, k, cl, src, spoof) == [struct |-> TRUE, endpoint |-> ep, spelling |-> sp, preserve |-> pr, kind |-> k, claim |-> cl, source |-> src, spoof |-> spoof, store |-> "cookie"]
+
 VARIABLE c
-Init == \E ep \in {"upstream", "authonly"}, f \in Flags, src \in Sources, sp \in Spoofs, st \in {"cookie", "redis"} :
-          c = Mk(ep, f, src, sp, st) /\ InScope(c)
+Init == \/ \E ep \in {"upstream", "authonly"}, f \in Flags, src \in Sources, sp \in Spoofs, st \in {"cookie", "redis"} :
+             c = Mk(ep, f, src, sp, st) /\ InScope(c)
+        \/ \E ep \in {"upstream", "authonly"}, sp \in Spellings, pr \in BOOLEAN, k \in SKinds, cl \in SClaims, src \in SSources, spoof \in Spoofs :
+             c = SMk(ep, sp, pr, k, cl, src, spoof) /\ SInScope(c)
 Next == UNCHANGED c
 
+IsStruct(d) == "struct" \in DOMAIN d
 CaseRec(d) == [fam |-> "c07", in |-> d,
-               req |-> [headers |-> IF d.endpoint = "upstream" THEN Req_Upstream(d.source, d.flags, d.spoof) ELSE Req_AuthOnly(d.source, d.flags),
+               req |-> [headers |-> IF IsStruct(d) THEN << [name |-> "X-Vp-Ident", tags |-> SExpected(d)] >>
+                                    ELSE IF d.endpoint = "upstream" THEN Req_Upstream(d.source, d.flags, d.spoof) ELSE Req_AuthOnly(d.source, d.flags),
                         served |-> TRUE]]
 EmitVocab == JsonSerialize("vocab.json", Vocab)
 EmitCase  == CSVWrite("%1$s", <<ToJson(CaseRec(c))>>, "cases.ndjson")
